@@ -138,6 +138,17 @@ def provides(keys, units):
 DEPENDENCIES = ['C04', 'C05', 'C12']
 
 
+def adjudicate(failed, undecided, obligations, extra):
+    """The property asks for decoding to be a pure FUNCTION: the result must not depend on what was decoded before.  The
+    proof obligation is a sufficient condition - no store to any object that existed before the call.  Code that keeps
+    state (a cache) fails it whether or not the state can ever change a result.  So when the only failures are stores,
+    the bounded witness search decides: a pair of frames whose second decode differs from the pristine one is a
+    violation with an input; no such pair found means the proof does not go through - undecided, not a violation."""
+    from pyvc.engine import adjudicate_stores
+    adjudicate_stores("C01", failed, undecided, obligations, extra,
+                      "the bounded search over ordered pairs of frames found no decode that depends on an earlier one")
+
+
 # ----------------------------------------------------------------------------- bounded stand-in for "every order of decoding"
 # The purity obligation above (no store to pre-existing state on any path) is the proof of order independence.  When a
 # change makes decoding keep state (a cache, a lazily filled table) that obligation fails without an input to show; this
